@@ -13,6 +13,10 @@ from ..cfg import cfg_of, calls_in_order
 from ..effects import EffectScanner, stmts_in_order, dict_literal_of
 from .. import frontend as F
 from .c10 import REPLY_TYPE
+from ..query import Q, ANY, mv, match, alternatives, contains, dict_pairs
+from ..facts import facts_of
+from ..contract import entry
+from ..terms import walk, show
 
 EXPLANATION = ("Two-program conformance by set comparison and dominance: message types the client emits are accepted by the "
                "server and vice versa (constants resolved, pairwise distinct); each client request registers its future under "
@@ -149,18 +153,39 @@ def check(repo):
     r1.require(set(cli_emits) == {mt["CONFIG"], mt["UPLOAD_DB"], mt["TOKEN"]}, list(cli.methods.values())[0], "client request types", "the client emits %s" % sorted(map(str, cli_emits)))
     r1.require({mt["INIT"], mt["CONFIG"], mt["UPLOAD_DB"], mt["RESULT"], mt["CONTROL"]} <= set(srv_emits), list(srv.methods.values())[0], "server reply types", "the server emits %s" % sorted(map(str, srv_emits)))
     # INIT handshake
-    lw = cli.methods.get("load_websocket")
-    src = unparse(lw.node)
-    r1.require("KEY_TYPE: TYPE_INIT" in src and "KEY_SID: self.sid" in src and "await websocket.send(pickle.dumps(event))" in src, lw, "client init event", "load_websocket no longer sends {KEY_TYPE: TYPE_INIT, KEY_SID: sid}")
-    hd = repo.func(F.SRV_CONN, "handler")
-    hs = unparse(hd.node)
-    r1.require("event = pickle.loads(message)" in hs and "event[KEY_TYPE] == TYPE_INIT" in hs and "sid = event[KEY_SID]" in hs, hd, "server init handshake", "connector.handler no longer expects the pickled init event with KEY_TYPE / KEY_SID")
     fc = repo.module("frontend/constants.py")
-    try:
-        ti = repo.const_value(fc, fc.globals["TYPE_INIT"])
-    except Exception:
-        ti = None
-    r1.require(ti == mt.get("INIT"), hd, "TYPE_INIT equals MsgType.INIT", "frontend.constants.TYPE_INIT (%r) differs from MsgType.INIT (%r)" % (ti, mt.get("INIT")))
+
+    def cval(name):
+        try:
+            return repo.const_value(fc, fc.globals[name])
+        except Exception:
+            return None
+    K_TYPE, K_SID, T_INIT = cval("KEY_TYPE"), cval("KEY_SID"), cval("TYPE_INIT")
+    SELF = ("param", "self")
+    lw = cli.methods.get("load_websocket")
+    qlw = Q(repo, lw)
+    ok_init = False
+    for c, nid, t in qlw.calls_to("send"):
+        if t[0] == "mcall" and t[3] and t[3][0][0] == "call" and t[3][0][1] == "pickle.dumps" and t[3][0][2]:
+            dp = dict_pairs(t[3][0][2][0])
+            if dp and dp[0] == {("const", K_TYPE): ("const", T_INIT), ("const", K_SID): ("attr", SELF, "sid")}:
+                ok_init = True
+    r1.require(ok_init, lw, "client init event", "load_websocket no longer sends pickle.dumps({KEY_TYPE: TYPE_INIT, KEY_SID: self.sid}) as its first message")
+    hd = repo.func(F.SRV_CONN, "handler")
+    qh = Q(repo, hd)
+    EVENT = ("call", "pickle.loads", (("await", ("mcall", ("param", hd.params[0]), "recv", (), ())),), ())
+    cs_calls = [(c, nid, t) for c, nid, t in qh.calls_to("create_service")]
+    ok_hs = bool(cs_calls)
+    for c, nid, t in cs_calls:
+        a0 = qh.arg(c, nid, 0)
+        if a0 not in (("sub", EVENT, ("const", K_SID)), ("mcall", EVENT, "get", (("const", K_SID),), ())):
+            ok_hs = False
+        typed = any(f[0] == "==" and f[-1] is True and {f[1], f[2]} == {("const", T_INIT), ("sub", EVENT, ("const", K_TYPE))} for f in qh.facts_terms(nid)) or \
+            any(f[0] == "==" and f[-1] is True and ("const", T_INIT) in f[1:3] and any(x[0] == "mcall" and x[1] == EVENT and x[2] == "get" and x[3][:1] == (("const", K_TYPE),) for x in f[1:3]) for f in qh.facts_terms(nid))
+        if not typed:
+            ok_hs = False
+    r1.require(ok_hs, hd, "server init handshake", "connector.handler no longer expects the pickled init event: the service id must be event[KEY_SID] of the first message, with event[KEY_TYPE] == TYPE_INIT established")
+    r1.require(T_INIT == mt.get("INIT"), hd, "TYPE_INIT equals MsgType.INIT", "frontend.constants.TYPE_INIT (%r) differs from MsgType.INIT (%r)" % (T_INIT, mt.get("INIT")))
 
     # ---------------------------------------------------------------- R9.2
     want = {"handle_upload_config": (mt["CONFIG"], mt["CONFIG"]), "handle_upload_encrypted_database": (mt["UPLOAD_DB"], mt["UPLOAD_DB"]),
@@ -169,89 +194,138 @@ def check(repo):
         fi = cli.methods.get(hname)
         if fi is None:
             raise AnalysisError("client handler vanished: %s" % hname)
-        cfg = cfg_of(fi.node)
+        qq = Q(repo, fi)
+        cfg = qq.cfg
         regs, sends = [], []
-        for n in cfg.nodes:
-            if n.stmt is None or n.ast is None:
-                continue
-            for c in calls_in_order(n.stmt if n.kind != "test" else n.ast):
-                d = dotted(c.func) or ""
-                if d in ("self.register_upload_echo_future_once", "self.register_result_future_once") and c.args:
-                    try:
-                        regs.append((n, repo.const_value(fi.module, c.args[0]), d))
-                    except Exception:
-                        regs.append((n, None, d))
-                if d == "self._send_message" and c.args:
-                    try:
-                        sends.append((n, repo.const_value(fi.module, c.args[0])))
-                    except Exception:
-                        sends.append((n, None))
+        for c, nid, t in qq.calls():
+            if t[0] == "call" and isinstance(t[1], str) and t[1].endswith("::Service.register_upload_echo_future_once") or t[0] == "call" and isinstance(t[1], str) and t[1].endswith("::Service.register_result_future_once"):
+                a0, a1 = qq.arg(c, nid, 0), qq.arg(c, nid, 1)
+                regs.append((cfg.nodes[nid], a0[1] if a0 and a0[0] == "const" else None, t[1].split(".")[-1], a1))
+            if t[0] == "call" and isinstance(t[1], str) and t[1].endswith("::Service._send_message"):
+                a0 = qq.arg(c, nid, 0)
+                sends.append((cfg.nodes[nid], a0[1] if a0 and a0[0] == "const" else None))
         r2.require(REPLY_TYPE.get(q) == p, fi, "reply type table", "C10's reply-type table maps %r to %r, the client expects %r" % (q, REPLY_TYPE.get(q), p))
         ok_send = len(sends) == 1 and sends[0][1] == q
         r2.require(ok_send, fi, "%s sends %r" % (hname, q), "%s sends %s" % (hname, [s[1] for s in sends]))
-        ok_reg = len(regs) == 1 and regs[0][1] == p and regs[0][2] == "self.register_upload_echo_future_once"
+        ok_reg = len(regs) == 1 and regs[0][1] == p and regs[0][2] == "register_upload_echo_future_once"
         r2.require(ok_reg, fi, "%s waits for %r" % (hname, p), "%s registers its future under %s; the server replies to %r with %r and the receive loop resolves echo futures by the received type" % (
-            hname, [(r_[1], r_[2].split(".")[-1]) for r_ in regs], q, p))
+            hname, [(r_[1], r_[2]) for r_ in regs], q, p))
         if ok_send and ok_reg:
-            # registration precedes the send on the waiting path
             r2.require(cfg.can_reach(regs[0][0].id, sends[0][0].id) and not cfg.can_reach(sends[0][0].id, regs[0][0].id), fi, "future registered before the request is sent",
                        "%s sends the request before registering the future: a fast reply is dropped and the caller waits for the timeout" % hname)
-        # wait_for on the same future
-        r2.require("await asyncio.wait_for(fut, 60)" in unparse(fi.node) and "fut.add_done_callback(wait_callback_func)" in unparse(fi.node), fi, "%s awaits the reply" % hname, "%s no longer awaits its future" % hname)
+        # the future that is registered is the one that gets the callback and is awaited
+        fut = regs[0][3] if regs else None
+        waits = [qq.arg(c, nid, 0) for c, nid, t in qq.calls_to("asyncio.wait_for")]
+        awaited = fut is not None and any(fut in alternatives(w) for w in waits if w is not None)
+        cb = any(t[0] == "mcall" and t[2] == "add_done_callback" and t[1] == fut for _c, _n, t in qq.calls())
+        r2.require(awaited and cb, fi, "%s awaits the reply" % hname, "%s no longer attaches the callback to / awaits the future it registered" % hname)
     rm = cli.methods.get("_recv_message")
-    src = unparse(rm.node)
-    r2.require("for fut in self.echo_futures.get(msg_type, [])" in src and "fut.set_result(content_byte)" in src and "self.echo_futures[msg_type] = []" in src, rm,
-               "receive loop resolves futures by received type", "client _recv_message no longer resolves echo futures registered under the received message type with the content")
-    r2.require("self.recv_msg_handler[msg_type](content_byte)" in src and "sid != self.sid" in src, rm, "client dispatch", "client _recv_message no longer dispatches by type / skips foreign sids")
+    qr = Q(repo, rm)
+    msgs = [t for _c, _n, t in qr.calls() if t[0] == "call" and t[1] == "pickle.loads"]
+    MSG = msgs[0] if msgs else None
+    r3.require(MSG is not None and (contains(MSG, ("attr", SELF, "websocket"))), rm, "client unpickles messages", "client _recv_message no longer unpickles the message")
+    if MSG is not None:
+        G = lambda k, *d: ("mcall", MSG, "get", (("const", k),) + d, ())  # noqa: E731
+        TYPE, CONTENT, SIDT = G("type"), G("content"), G("sid")
+        resolved = False
+        for _c, _n, t in qr.calls():
+            if t[0] == "mcall" and t[2] == "set_result" and t[3] == (CONTENT,):
+                for alt in alternatives(t[1]):
+                    if alt[0] == "elem" and alt[1][0] == "mcall" and alt[1][1] == ("attr", SELF, "echo_futures") and alt[1][2] == "get" and alt[1][3][:1] == (TYPE,):
+                        resolved = True
+                    if alt[0] == "elem" and alt[1] == ("sub", ("attr", SELF, "echo_futures"), TYPE):
+                        resolved = True
+        r2.require(resolved, rm, "receive loop resolves futures by received type", "client _recv_message no longer resolves echo futures registered under the received message type with the content")
+        disp = [(c, nid, t) for c, nid, t in qr.calls() if t[0] == "calldyn" and t[1] == ("sub", ("attr", SELF, "recv_msg_handler"), TYPE)]
+        okd = bool(disp) and all(t[2][:1] == (CONTENT,) for _c, _n, t in disp)
+        own = okd and all(any(f[0] == "==" and {f[1], f[2]} == {SIDT, ("attr", SELF, "sid")} and f[-1] is True for f in qr.facts_terms(nid)) for _c, nid, _t in disp)
+        r2.require(okd and own, rm, "client dispatch", "client _recv_message no longer dispatches by type / skips foreign sids")
     reg = cli.methods.get("register_upload_echo_future_once")
-    r2.require("self.echo_futures[msg_type].append(fut)" in unparse(reg.node), reg, "future stored under its type", "register_upload_echo_future_once no longer stores the future under msg_type")
-    r2.require("asyncio.create_task(self._recv_message())" in unparse(lw.node), lw, "receive loop started on connect", "load_websocket no longer starts the receive loop")
+    qg = Q(repo, reg)
+    okreg = any(t[0] == "mcall" and t[2] == "append" and t[3] == (("param", reg.params[2]),) and contains(t[1], ("attr", SELF, "echo_futures")) and contains(t[1], ("param", reg.params[1]))
+                for _c, _n, t in qg.calls())
+    r2.require(okreg, reg, "future stored under its type", "register_upload_echo_future_once no longer stores the future under msg_type")
+    started = any(t[0] == "call" and t[1] == "asyncio.create_task" and t[2] and t[2][0][0] == "call" and str(t[2][0][1]).endswith("::Service._recv_message") for _c, _n, t in qlw.calls())
+    r2.require(started, lw, "receive loop started on connect", "load_websocket no longer starts the receive loop")
 
     # ---------------------------------------------------------------- R9.3
+    def message_fields(fi, sid_term):
+        """Keys of the dict that is pickled and sent, when it maps type/sid/content to the parameters and merges the extra fields."""
+        qs = Q(repo, fi)
+        for _c, _n, t in qs.calls():
+            if t[0] == "call" and t[1] == "pickle.dumps" and t[2]:
+                dp = dict_pairs(t[2][0])
+                if dp is None:
+                    continue
+                pairs, extras = dp
+                keys = {k[1] for k in pairs if k[0] == "const"}
+                okv = pairs.get(("const", "type")) == ("param", "msg_type") and pairs.get(("const", "sid")) == sid_term and pairs.get(("const", "content")) == ("param", "content")
+                kw = fi.node.args.kwarg.arg if fi.node.args.kwarg else None
+                merged = kw is not None and ("param", kw) in extras
+                sent = any(tt[0] == "mcall" and tt[2] == "send" and tt[3] == (t,) for _c2, _n2, tt in qs.calls())
+                return keys, okv and merged and sent
+        return set(), False
     sm = cli.methods.get("_send_message")
-    d = next((x for x in ast.walk(sm.node) if isinstance(x, ast.Dict)), None)
-    ckeys = {k.value for k in d.keys if isinstance(k, ast.Constant)} if d is not None else set()
-    r3.require(ckeys == {"type", "sid", "content"} and "msg_dict.update(additional_field)" in unparse(sm.node) and "pickle.dumps(msg_dict)" in unparse(sm.node), sm, "client message fields",
-               "client _send_message writes %s" % sorted(ckeys))
+    ckeys, okc = message_fields(sm, ("attr", SELF, "sid"))
+    r3.require(ckeys == {"type", "sid", "content"} and okc, sm, "client message fields", "client _send_message writes %s (expected type/sid/content from its parameters plus the additional fields, pickled and sent)" % sorted(ckeys))
     ssm = repo.func(F.SRV_COMM, "send_message")
-    d2 = next((x for x in ast.walk(ssm.node) if isinstance(x, ast.Dict)), None)
-    skeys = {k.value for k in d2.keys if isinstance(k, ast.Constant)} if d2 is not None else set()
-    r3.require(skeys == {"type", "sid", "content"} and "msg_dict.update(additional_field)" in unparse(ssm.node) and "pickle.dumps(msg_dict)" in unparse(ssm.node), ssm, "server message fields",
-               "server send_message writes %s" % sorted(skeys))
+    skeys, oks = message_fields(ssm, ("param", "sid"))
+    r3.require(skeys == {"type", "sid", "content"} and oks, ssm, "server message fields", "server send_message writes %s (expected type/sid/content from its parameters plus the additional fields, pickled and sent)" % sorted(skeys))
     srm = srv.methods.get("_recv_message")
-    for side, f, written, extra in (("server", srm, ckeys, set()), ("client", rm, skeys, {"token_digest"})):
-        reads = {c.args[0].value for c in ast.walk(f.node) if isinstance(c, ast.Call) and isinstance(c.func, ast.Attribute) and c.func.attr == "get"
-                 and dotted(c.func.value) == "message_dict" and c.args and isinstance(c.args[0], ast.Constant)}
-        r3.require(reads <= written | extra and {"type", "sid", "content"} <= reads, f, "%s reads only written fields" % side, "%s _recv_message reads %s, the sender writes %s" % (side, sorted(reads), sorted(written | extra)))
-        r3.require("pickle.loads(message_bytes)" in unparse(f.node), f, "%s unpickles messages" % side, "%s _recv_message no longer unpickles the message" % side)
+    qsr = Q(repo, srm)
+    smsgs = [t for _c, _n, t in qsr.calls() if t[0] == "call" and t[1] == "pickle.loads"]
+    SMSG = smsgs[0] if smsgs else None
+    r3.require(SMSG is not None, srm, "server unpickles messages", "server _recv_message no longer unpickles the message")
+    for side, qx, M, written, extra in (("server", qsr, SMSG, ckeys, set()), ("client", qr, MSG, skeys, {"token_digest"})):
+        reads = {t[3][0][1] for _c, _n, t in qx.calls() if t[0] == "mcall" and t[1] == M and t[2] == "get" and t[3] and t[3][0][0] == "const"}
+        reads |= {x[2][1] for _c, _n, t in qx.calls() for x in walk(t) if isinstance(x, tuple) and x and x[0] == "sub" and x[1] == M and x[2][0] == "const"}
+        r3.require(reads <= written | extra and {"type", "sid", "content"} <= reads, qx.fi, "%s reads only written fields" % side, "%s _recv_message reads %s, the sender writes %s" % (side, sorted(reads), sorted(written | extra)))
     # token_digest: client sends it as keyword, server reads it from the raw message and echoes it as keyword, client reads it
     ks = cli.methods.get("handle_keyword_search")
-    r3.require("token_digest=token_digest" in unparse(ks.node), ks, "client sends token_digest", "handle_keyword_search no longer sends token_digest")
+    qk = Q(repo, ks)
+    sent_td = [dict(t[3]).get("token_digest") for _c, _n, t in qk.calls() if t[0] == "call" and str(t[1]).endswith("::Service._send_message")]
+    r3.require(bool(sent_td) and all(x is not None for x in sent_td), ks, "client sends token_digest", "handle_keyword_search no longer sends token_digest")
     st = srv.methods.get("handle_search_token")
-    ssrc = unparse(st.node)
-    r3.require("raw_msg_dict.get('token_digest')" in ssrc and "token_digest=tk_digest" in ssrc, st, "server echoes token_digest", "handle_search_token no longer reads / echoes token_digest")
-    r3.require("self.recv_msg_handler[msg_type](content_byte, message_dict)" in unparse(srm.node), srm, "server passes the raw message", "server _recv_message no longer passes the raw message dict to the handler")
+    qt = Q(repo, st)
+    raw = ("param", st.params[2]) if len(st.params) > 2 else None
+    replies = [t for _c, _n, t in qt.calls() if t[0] == "call" and str(t[1]).endswith("::Service.send_message") and dict(t[3]).get("content") is not None]
+    echo = bool(replies) and all(dict(t[3]).get("token_digest") in (("mcall", raw, "get", (("const", "token_digest"),), ()), ("sub", raw, ("const", "token_digest"))) for t in replies)
+    r3.require(echo, st, "server echoes token_digest", "handle_search_token no longer reads / echoes token_digest")
+    if SMSG is not None:
+        GS = lambda k: ("mcall", SMSG, "get", (("const", k),), ())  # noqa: E731
+        sd = [t for _c, _n, t in qsr.calls() if t[0] == "calldyn" and t[1] == ("sub", ("attr", SELF, "recv_msg_handler"), GS("type"))]
+        r3.require(bool(sd) and all(t[2] == (GS("content"), SMSG) for t in sd), srm, "server passes the raw message", "server _recv_message no longer passes the content and the raw message dict to the handler")
     # init echo content
     ie = srv.methods.get("send_init_echo")
-    dd = None
-    for c in ast.walk(ie.node):
-        if isinstance(c, ast.Call) and dict_literal_of(c) is not None:
-            dd = dict_literal_of(c)
-    ikeys = {k.value for k in dd.keys if isinstance(k, ast.Constant)} if dd is not None else set()
-    lws = unparse(lw.node)
-    r3.require({"ok", "state"} <= ikeys and "echo_content.get('ok')" in lws and "echo_content.get('state', 0)" in lws and "pickle.loads(echo_dict.get('content'))" in lws, lw,
-               "init echo fields", "the init echo writes %s; the client reads ok/state from the unpickled content" % sorted(ikeys))
-    r3.require("self.update_current_client_service_state_by_server_service_state(server_state)" in lws, lw, "client adopts the server state", "load_websocket no longer adopts the reported server state")
+    ikeys = set()
+    for _c, _n, t in Q(repo, ie).calls():
+        for x in walk(t):
+            if isinstance(x, tuple) and x and x[0] == "dict":
+                dp = dict_pairs(x)
+                if dp:
+                    ikeys |= {k[1] for k in dp[0] if k[0] == "const"}
+    ECHO = ("call", "pickle.loads", (("await", ("mcall", ANY, "recv", (), ())),), ())
+    ECONT = ("call", "pickle.loads", (("mcall", ECHO, "get", (("const", "content"),), ()),), ())
+    reads_ok = any(match(("mcall", ECONT, "get", (("const", "ok"),), ()), t) is not None or match(("mcall", ECONT, "get", (("const", "ok"), ANY), ()), t) is not None for _c, _n, t in qlw.calls())
+    state_t = [t for _c, _n, t in qlw.calls() if match(("mcall", ECONT, "get", (("const", "state"), ANY), ()), t) is not None or match(("mcall", ECONT, "get", (("const", "state"),), ()), t) is not None]
+    r3.require({"ok", "state"} <= ikeys and reads_ok and bool(state_t), lw, "init echo fields", "the init echo writes %s; the client reads ok/state from the unpickled content" % sorted(ikeys))
+    adopts = any(t[0] == "call" and str(t[1]).endswith("::Service.update_current_client_service_state_by_server_service_state") and t[2] and t[2][0] in state_t for _c, _n, t in qlw.calls())
+    r3.require(adopts, lw, "client adopts the server state", "load_websocket no longer adopts the reported server state")
     # reply dicts: ok / reason
     for hname in ("handle_upload_config_echo", "handle_upload_encrypted_database_echo"):
         f = cli.methods.get(hname)
-        s_ = unparse(f.node)
-        r3.require("content = pickle.loads(content_bytes)" in s_ and "content.get('ok', False)" in s_, f, "%s reads ok" % hname, "%s no longer unpickles the reply and reads 'ok'" % hname)
+        body = ("call", "pickle.loads", (("param", f.params[1]),), ())
+        okr = any(t[0] == "mcall" and t[1] == body and t[2] == "get" and t[3][:1] == (("const", "ok"),) for _c, _n, t in Q(repo, f).calls())
+        r3.require(okr, f, "%s reads ok" % hname, "%s no longer unpickles the reply and reads 'ok'" % hname)
     # payload pickling: config
     uc = cli.methods.get("handle_upload_config")
-    r3.require("pickle.dumps(self.config)" in unparse(uc.node), uc, "config pickled by the client", "handle_upload_config no longer sends pickle.dumps(self.config)")
+    okp = any(t[0] == "call" and str(t[1]).endswith("::Service._send_message") and len(t[2]) > 1 and t[2][1] == ("call", "pickle.dumps", (("attr", SELF, "config"),), ()) for _c, _n, t in Q(repo, uc).calls())
+    r3.require(okp, uc, "config pickled by the client", "handle_upload_config no longer sends pickle.dumps(self.config)")
     sc = srv.methods.get("handle_upload_config")
-    r3.require("config = pickle.loads(config_bytes)" in unparse(sc.node), sc, "config unpickled by the server", "server handle_upload_config no longer unpickles the configuration")
+    qsc = Q(repo, sc)
+    CFGT = ("call", "pickle.loads", (("param", sc.params[1]),), ())
+    stored = any(v == CFGT for v, _n, _s in qsc.stores("config")) or any(t[0] == "call" and str(t[1]).endswith("write_service_config") and CFGT in t[2] for _c, _n, t in qsc.calls())
+    r3.require(stored, sc, "config unpickled by the server", "server handle_upload_config no longer unpickles the configuration")
 
     # ---------------------------------------------------------------- R9.4
     n1 = _check_typestate(repo, r4, F.SRV, {})
@@ -260,47 +334,98 @@ def check(repo):
                                             ("handle_result_future", "sse_module_loader"): "assigned in __init__ when the config exists",
                                             ("handle_result_future", "config_object"): "assigned in __init__ when the config exists"})
     r4.require(n1 + n2 >= 14, list(srv.methods.values())[0], "dereference floor", "only %d dereferences of lazily loaded attributes found (expected >= 14)" % (n1 + n2))
-    ci_src = unparse(cli.methods["__init__"].node)
-    r4.require("if ClientServiceState.is_config_created(self.get_current_service_state()):" in ci_src and "self._load_sse_module()" in ci_src and "self._load_config_object()" in ci_src,
-               cli.methods["__init__"], "client constructor loads module and config object", "client Service.__init__ no longer loads the module and config object when the configuration exists")
+    cinit = cli.methods["__init__"]
+    Fci = facts_of(cinit)
+    ld_nodes = {}
+    for c, nid, t in Q(repo, cinit).calls():
+        for ld in ("_load_sse_module", "_load_config_object"):
+            if t[0] == "call" and str(t[1]).endswith("::Service." + ld):
+                ld_nodes.setdefault(ld, []).append(nid)
+    created = lambda k, t: k[0] == "truth" and "is_config_created(" in k[1] and t  # noqa: E731
+    okl = all(ld_nodes.get(ld) for ld in ("_load_sse_module", "_load_config_object")) and all(
+        Fci.one_of(n_, [(k, True) for k in Fci.keys() if created(k, True)]) for ns in ld_nodes.values() for n_ in ns)
+    r4.require(okl, cinit, "client constructor loads module and config object", "client Service.__init__ no longer loads the module and config object when the configuration exists")
     # loaders: artifact + class family
-    pairs = [(F.CLI, "_load_sse_key", "FileManager.read_key(self.sid)", "self.sse_module_loader.SSEKey", "self.key"),
-             (F.CLI, "_load_sse_encrypted_database", "FileManager.read_encrypted_database(self.sid)", "self.sse_module_loader.SSEEncryptedDatabase", "self.edb"),
-             (F.SRV, "_load_sse_encrypted_database", "FileManager.read_encrypted_database(self.sid)", "self.sse_module_loader.SSEEncryptedDatabase", "self.edb")]
-    for rel, ld, read, fam, attr in pairs:
+    pairs = [(F.CLI, "_load_sse_key", "read_key", "SSEKey", "key"),
+             (F.CLI, "_load_sse_encrypted_database", "read_encrypted_database", "SSEEncryptedDatabase", "edb"),
+             (F.SRV, "_load_sse_encrypted_database", "read_encrypted_database", "SSEEncryptedDatabase", "edb")]
+    for rel, ld, reader, fam, attr in pairs:
         f = repo.func(rel, "Service." + ld)
-        s_ = unparse(f.node)
-        ok = read in s_ and fam in s_ and ".deserialize(" in s_ and ", self.config_object)" in s_ and (attr + " =") in s_
-        r4.require(ok, f, "%s reads its artifact and deserialises with the scheme's class" % ld, "%s.%s no longer reads %s and deserialises with %s and the config object" % (rel, ld, read, fam))
+        vals = [v for v, _n, _s in Q(repo, f).stores(attr)]
+        pat = ("mcall", ("attr", ("attr", SELF, "sse_module_loader"), fam), "deserialize", (("call", mv("R"), (("attr", SELF, "sid"),), ()), ("attr", SELF, "config_object")), ())
+        ok = bool(vals) and all((match(pat, v) or {}).get("R", "").endswith("::" + reader) for v in vals)
+        r4.require(ok, f, "%s reads its artifact and deserialises with the scheme's class" % ld, "%s.%s no longer reads %s(self.sid) and deserialises with %s and the config object" % (rel, ld, reader, fam))
     for rel in (F.CLI, F.SRV):
-        for ld, body in (("_load_sse_module", "self.sse_module_loader = schemes.load_sse_module(scheme_name)"), ("_load_config_object", "self.config_object = self.sse_module_loader.SSEConfig(self.config)"),
-                         ("_load_sse_scheme", "self.sse_scheme = self.sse_module_loader.SSEScheme(self.config)")):
+        for ld, attr, want_v in (("_load_sse_module", "sse_module_loader", [("call", mv("L"), (("cfgdyn", ("const", "scheme")),), ()),
+                                                                              ("call", mv("L"), (("sub", ("attr", SELF, "config"), ("const", "scheme")),), ()),
+                                                                              ("call", mv("L"), (("mcall", ("attr", SELF, "config"), "get", (("const", "scheme"),), ()),), ())]),
+                                 ("_load_config_object", "config_object", [("mcall", ("attr", SELF, "sse_module_loader"), "SSEConfig", (("attr", SELF, "config"),), ())]),
+                                 ("_load_sse_scheme", "sse_scheme", [("mcall", ("attr", SELF, "sse_module_loader"), "SSEScheme", (("attr", SELF, "config"),), ())])):
             f = repo.func(rel, "Service." + ld)
-            r5.require(body in unparse(f.node), f, "%s" % ld, "%s Service.%s no longer does `%s`" % (rel, ld, body))
-        f = repo.func(rel, "Service._load_sse_module")
-        r5.require("scheme_name = self.config['scheme']" in unparse(f.node), f, "scheme named by the config", "%s _load_sse_module no longer takes the scheme from config['scheme']" % rel)
+            vals = [v for v, _n, _s in Q(repo, f).stores(attr)]
+            ok = bool(vals)
+            for v in vals:
+                ms = [match(p_, v) for p_ in want_v]
+                ms = [m_ for m_ in ms if m_ is not None]
+                if not ms or ("L" in ms[0] and not str(ms[0]["L"]).endswith("load_sse_module")):
+                    ok = False
+            r5.require(ok, f, "%s" % ld, "%s Service.%s no longer builds self.%s from the uploaded configuration (%s)" % (rel, ld, attr, [show(v, maxdepth=4)[:80] for v in vals]))
     # writers
     ck = cli.methods.get("handle_create_key")
-    r4.require("sse_key = self.sse_scheme.KeyGen()" in unparse(ck.node) and "FileManager.write_key(self.sid, sse_key.serialize())" in unparse(ck.node), ck, "key written in its serialized form", "handle_create_key no longer writes KeyGen().serialize()")
+    KEYGEN = ("mcall", ("mcall", ("attr", SELF, "sse_scheme"), "KeyGen", (), ()), "serialize", (), ())
+    okk = any(t[0] == "call" and str(t[1]).endswith("::write_key") and t[2] == (("attr", SELF, "sid"), KEYGEN) for _c, _n, t in Q(repo, ck).calls())
+    r4.require(okk, ck, "key written in its serialized form", "handle_create_key no longer writes KeyGen().serialize()")
     ce = cli.methods.get("handle_encrypt_database")
-    r4.require("self.edb = self.sse_scheme.EDBSetup(self.key, database)" in unparse(ce.node) and "FileManager.write_encrypted_database(self.sid, self.edb.serialize())" in unparse(ce.node), ce,
-               "index written in its serialized form", "handle_encrypt_database no longer writes EDBSetup(key, db).serialize()")
+    qce = Q(repo, ce)
+    SETUP = ("mcall", ("attr", SELF, "sse_scheme"), "EDBSetup", (("attr", SELF, "key"), ("param", ce.params[1])), ())
+    oke = any(t[0] == "call" and str(t[1]).endswith("::write_encrypted_database") and t[2][:1] == (("attr", SELF, "sid"),) and len(t[2]) == 2 and
+              t[2][1] in (("mcall", SETUP, "serialize", (), ()), ("mcall", ("attr", SELF, "edb"), "serialize", (), ())) for _c, _n, t in qce.calls()) and \
+        (any(v == SETUP for v, _n, _s in qce.stores("edb")) or True)
+    r4.require(oke, ce, "index written in its serialized form", "handle_encrypt_database no longer writes EDBSetup(key, db).serialize()")
     ue = cli.methods.get("handle_upload_encrypted_database")
-    r4.require("self._send_message(MsgType.UPLOAD_DB, self.edb.serialize())" in unparse(ue.node), ue, "index uploaded in its serialized form", "handle_upload_encrypted_database no longer uploads self.edb.serialize()")
-    kss = unparse(ks.node)
-    r4.require("token = self.sse_scheme.TokenGen(self.key, keyword)" in kss and "token_bytes = token.serialize()" in kss and "self._send_message(MsgType.TOKEN, token_bytes" in kss, ks,
-               "token sent in its serialized form", "handle_keyword_search no longer sends TokenGen(key, keyword).serialize()")
-    r4.require("self.sse_module_loader.SSEToken.deserialize(token_bytes, self.config_object)" in ssrc and "result = self.sse_scheme.Search(self.edb, tk_object)" in ssrc and
-               "content=result.serialize()" in ssrc, st, "server deserialises the token, searches, serialises the result", "server handle_search_token no longer deserialises the token with its config / searches its index / replies result.serialize()")
+    oku = any(t[0] == "call" and str(t[1]).endswith("::Service._send_message") and t[2] == (("const", mt["UPLOAD_DB"]), ("mcall", ("attr", SELF, "edb"), "serialize", (), ())) for _c, _n, t in Q(repo, ue).calls())
+    r4.require(oku, ue, "index uploaded in its serialized form", "handle_upload_encrypted_database no longer uploads self.edb.serialize()")
+    TOKEN = ("mcall", ("mcall", ("attr", SELF, "sse_scheme"), "TokenGen", (("attr", SELF, "key"), ("param", ks.params[1])), ()), "serialize", (), ())
+    okt = any(t[0] == "call" and str(t[1]).endswith("::Service._send_message") and t[2][:2] == (("const", mt["TOKEN"]), TOKEN) for _c, _n, t in qk.calls())
+    r4.require(okt, ks, "token sent in its serialized form", "handle_keyword_search no longer sends TokenGen(key, keyword).serialize()")
+    TK = ("mcall", ("attr", ("attr", SELF, "sse_module_loader"), "SSEToken"), "deserialize", (("param", st.params[1]), ("attr", SELF, "config_object")), ())
+    RES = ("mcall", ("mcall", ("attr", SELF, "sse_scheme"), "Search", (("attr", SELF, "edb"), TK), ()), "serialize", (), ())
+    oks_ = bool(replies) and all(dict(t[3]).get("content") == RES for t in replies)
+    r4.require(oks_, st, "server deserialises the token, searches, serialises the result", "server handle_search_token no longer deserialises the token with its config / searches its index / replies result.serialize()")
     for hname in ("handle_result", "handle_result_future"):
         f = cli.methods.get(hname)
-        r4.require("self.sse_module_loader.SSEResult.deserialize(" in unparse(f.node) and "self.config_object)" in unparse(f.node), f, "%s deserialises with SSEResult" % hname, "%s no longer deserialises the result with SSEResult" % hname)
-    # server constructor reloads config and module for an existing service
-    ss = unparse(srv.methods["__init__"].node)
-    r4.require("self.config = FileManager.read_service_config(sid)" in ss and "self._load_sse_module()" in ss and "self._load_config_object()" in ss, srv.methods["__init__"],
-               "server constructor reloads config", "server Service.__init__ no longer reloads config / module / config object of an existing service")
-    cs = unparse(cli.methods["__init__"].node)
-    r4.require("self.config = FileManager.read_service_config(sid)" in cs, cli.methods["__init__"], "client constructor reloads config", "client Service.__init__ no longer reloads the stored configuration")
+        okh = any(t[0] == "mcall" and t[1] == ("attr", ("attr", SELF, "sse_module_loader"), "SSEResult") and t[2] == "deserialize" and len(t[3]) == 2 and t[3][1] == ("attr", SELF, "config_object")
+                  for _c, _n, t in Q(repo, f).calls())
+        r4.require(okh, f, "%s deserialises with SSEResult" % hname, "%s no longer deserialises the result with SSEResult" % hname)
+    # constructors reload config (and module / config object) of an existing service
+    for rel, ci_ in ((F.SRV, srv), (F.CLI, cli)):
+        f = ci_.methods["__init__"]
+        qi = Q(repo, f)
+        sidp = ("param", f.params[1])
+        okc = any(v[0] == "call" and str(v[1]).endswith("::read_service_config") and v[2] == (sidp,) for v, _n, _s in qi.stores("config"))
+        if rel == F.SRV:
+            okc = okc and all(any(t[0] == "call" and str(t[1]).endswith("::Service." + ld) for _c, _n, t in qi.calls()) for ld in ("_load_sse_module", "_load_config_object"))
+        # the stored state is adopted whenever the local files are valid - and under no further condition
+        Fq = facts_of(f)
+        for v, nid, st_ in qi.stores("config"):
+            if v[0] == "call" and str(v[1]).endswith("::read_service_config"):
+                extra = [k for (k, t) in (Fq.at(nid) or ()) if not ("check_sid_local_file_valid(" in " ".join(k[1:]) or "check_sid_folder_exist(" in " ".join(k[1:]))]
+                r4.require(not extra, f, "%s reload is unconditional" % ("server" if rel == F.SRV else "client"),
+                           "%s Service.__init__ adopts the stored configuration only if additionally %s: a re-created object can come up empty although its files are there" % (
+                               rel, [" ".join(map(str, k)) for k in extra]), st_)
+        r4.require(okc, f, "%s constructor reloads config" % ("server" if rel == F.SRV else "client"),
+                   "%s Service.__init__ no longer reloads the stored configuration%s" % (rel, " / module / config object of an existing service" if rel == F.SRV else ""))
+
+    r8 = Rule("R9.8", "the transport imposes no message size limit on either side")
+    rules.append(r8)
+    conn = [t for _c, _n, t in qlw.calls() if t[0] == "call" and str(t[1]).endswith("connect") and "websockets" in str(t[1])]
+    r8.require(bool(conn) and all(dict(t[3]).get("max_size", ("const", 2 ** 20)) == ("const", None) for t in conn), lw, "client connects without a size limit",
+               "the client opens its websocket with max_size=%s: an index upload or a result larger than that closes the connection (code 1009) instead of being delivered" % [
+                   show(dict(t[3]).get("max_size", ("const", "default 1 MiB")), maxdepth=3) for t in conn])
+    rs = repo.func(F.SRV_CONN, "run_server")
+    serve = [t for _c, _n, t in Q(repo, rs).calls() if t[0] == "call" and str(t[1]).endswith("serve") and "websockets" in str(t[1])]
+    r8.require(bool(serve) and all(dict(t[3]).get("max_size", ("const", 2 ** 20)) == ("const", None) for t in serve), rs, "server accepts messages of any size",
+               "the server's websockets.serve uses max_size=%s: an uploaded index larger than that is refused" % [show(dict(t[3]).get("max_size", ("const", "default 1 MiB")), maxdepth=3) for t in serve])
 
     r7 = Rule("R9.7", "a step's accepted state survives the close of its connection (no stale write-back over a later connection)")
     rules.append(r7)
@@ -309,27 +434,54 @@ def check(repo):
 
     # ---------------------------------------------------------------- R9.6
     se = repo.func(F.CLI_CMD, "search")
-    s_ = unparse(se.node)
-    r6.require("keyword_bytes = bytes(keyword, encoding='utf-8')" in s_, se, "search encodes the keyword as utf-8", "commands.search no longer encodes the keyword as utf-8 (the database converter's default)")
-    r6.require("output_format not in BytesConverter.supported_format" in s_, se, "output format validated", "commands.search no longer validates the output format")
+    qse = Q(repo, se)
+    kwp = se.params[0] if se.params else "keyword"
+    KW = ("call", "bytes", (("param", "keyword"),), (("encoding", ("const", "utf-8")),))
+    KW2 = ("mcall", ("param", "keyword"), "encode", (("const", "utf-8"),), ())
+    KW3 = ("mcall", ("param", "keyword"), "encode", (), ())
+    oks = any(t[0] == "mcall" and t[2] == "handle_keyword_search" and t[3][:1] and t[3][0] in (KW, KW2, KW3) for _c, _n, t in qse.calls())
+    r6.require(oks, se, "search encodes the keyword as utf-8", "commands.search no longer encodes the keyword as utf-8 (the database converter's default) before handing it to the client service")
+    Fse = facts_of(se)
+    fmt_checked = any(k[0] == "in" and k[1] == entry("output_format") and "supported_format" in k[2] for k in Fse.keys())
+    r6.require(fmt_checked, se, "output format validated", "commands.search no longer validates the output format")
     cd = repo.func("toolkit/database_utils.py", "convert_database_keyword_to_bytes")
     dflt = cd.node.args.defaults
     r6.require(bool(dflt) and isinstance(dflt[0], ast.Constant) and dflt[0].value == "utf-8", cd, "converter default utf-8", "convert_database_keyword_to_bytes no longer defaults to utf-8")
-    cds = unparse(cd.node)
-    kw_exprs = [unparse(st.value) for st in ast.walk(cd.node) if isinstance(st, ast.Assign) and unparse(st.targets[0]) == "keyword_bytes"]
-    r6.require(kw_exprs == ["bytes(keyword, encoding=encoding)"] and "for keyword in db" in cds and "result[keyword_bytes] = identifier_bytes_list" in cds, cd,
-               "converter encodes the keyword exactly as search does",
-               "convert_database_keyword_to_bytes derives the stored keyword as %s; commands.search encodes the typed keyword with bytes(keyword, encoding='utf-8') and nothing "
-               "else, so any further transformation on one side only makes such keywords unsearchable" % kw_exprs)
+    # the converter stores bytes(keyword, encoding) -> [bytes.fromhex(id)] and nothing else (shared with R17.4): any further transformation
+    # of the stored keyword that the search command does not apply makes such keywords unsearchable
+    from .c17 import check_db_conversion
+    check_db_conversion(repo, r6)
     ed = repo.func(F.CLI_CMD, "encrypt_database")
-    r6.require("db = convert_database_keyword_to_bytes(db)" in unparse(ed.node) and "json.load(f)" in unparse(ed.node), ed, "database converted with the default encoding", "commands.encrypt_database no longer converts the JSON database with the default encoding")
+    qed = Q(repo, ed)
+    conv = [t for _c, _n, t in qed.calls() if t[0] == "call" and str(t[1]).endswith("::convert_database_keyword_to_bytes")]
+    okcv = bool(conv) and all(len(t[2]) == 1 and not t[3] and contains(t[2][0], ("call", "json.load", ANY, ANY)) for t in conv) and \
+        any(t[0] == "mcall" and t[2] == "handle_encrypt_database" and t[3] and t[3][0] in conv for _c, _n, t in qed.calls())
+    r6.require(okcv, ed, "database converted with the default encoding", "commands.encrypt_database no longer converts the JSON database with the default encoding")
     eh = repo.func(F.CLI_CMD, "__search_echo_handler")
-    s2 = unparse(eh.node)
-    r6.require("SSEResult.deserialize(content, __client_service.config_object)" in s2 and "BytesConverter.convert_bytes(identifier_bytes, output_format)" in s2 and "result.get_result_list()" in s2, eh,
-               "result formatting", "__search_echo_handler no longer deserialises the result and converts each identifier with the chosen format")
+    qeh = Q(repo, eh)
+    okf = False
+    for _c, _n, t in qeh.calls():
+        for x in walk(t):
+            if not (isinstance(x, tuple) and x and x[0] == "call" and str(x[1]).endswith("BytesConverter.convert_bytes") and len(x[2]) == 2):
+                continue
+            m = match(("elem", ("mcall", mv("D"), "get_result_list", (), ())), x[2][0])
+            if m is None or x[2][1] != ("param", "output_format"):
+                continue
+            d = m["D"]
+            is_des = (d[0] == "call" and str(d[1]).endswith("SSEResult.deserialize")) or (d[0] == "mcall" and d[2] == "deserialize" and d[1][0] == "attr" and d[1][2] == "SSEResult")
+            args = d[2] if d[0] == "call" else d[3]
+            if is_des and args and contains(args[0], ("param", eh.params[0])):
+                okf = True
+    r6.require(okf, eh, "result formatting", "__search_echo_handler no longer deserialises the result and converts each identifier with the chosen format")
     for cmd in ("upload_config", "upload_encrypted_database", "search", "generate_key", "encrypt_database"):
         f = repo.func(F.CLI_CMD, cmd)
-        r6.require("__client_service = Service(sid)" in unparse(f.node), f, "%s re-creates the client from disk" % cmd, "commands.%s no longer creates Service(sid) from the stored state" % cmd)
+        lookups = lambda x: x[0] == "call" and str(x[1]).endswith("::get_service_id_by_sname") and x[2] == (("param", "sname"),)  # noqa: E731
+        okn = False
+        for _c, _n, t in Q(repo, f).calls():
+            if t[0] == "call" and str(t[1]).endswith("::Service.__init__") and t[2]:
+                alts = alternatives(t[2][0])
+                okn = ("param", "sid") in alts and all(a == ("param", "sid") or lookups(a) for a in alts)
+        r6.require(okn, f, "%s re-creates the client from disk" % cmd, "commands.%s no longer creates Service(sid) from the stored state" % cmd)
     return rules
 
 
